@@ -33,6 +33,24 @@ def rand_partition(rng, n):
     return tuple(parts)
 
 
+def chunked_write_with_empty_evlrs(las, parts, at):
+    """the same session with `write_evlrs(<empty list>)` called before chunk `at` (LAS 1.4): it writes nothing and finishes nothing"""
+    from laspy.laswriter import LasWriter
+    from laspy.vlrs.vlrlist import VLRList
+    buf = io.BytesIO()
+    w = LasWriter(buf, las.header, closefd=False)
+    pos = 0
+    for i, p in enumerate(parts):
+        if i == at:
+            w.write_evlrs(VLRList())
+        w.write_points(las.points[pos:pos + p])
+        pos += p
+    if las.evlrs is not None:
+        w.write_evlrs(las.evlrs)
+    w.close()
+    return buf.getvalue()
+
+
 def chunked_write(las, parts, evlr_at=None, close_early=False):
     """real LasWriter session: chunks per `parts`; returns (bytes, log)"""
     import laspy
@@ -180,6 +198,56 @@ def run(ck):
             if chunked != one.getvalue():
                 k0 = next((i for i in range(min(len(chunked), len(one.getvalue()))) if chunked[i] != one.getvalue()[i]), -1)
                 ck.fail(f"chunked file {parts} differs from the one-shot file (first difference at byte {k0}; sizes {len(chunked)}/{len(one.getvalue())})", inp)
+    # ---- an empty EVLR list written between two chunks changes nothing
+    for _ in range(15 if q else 300):
+        minor, fmt = ck.rng.choice([pr for pr in fio.PAIRS if pr[0] == 4])
+        n = ck.rng.choice([2, 5, 9])
+        las = fio.make_las(ck.rng, minor, fmt, n, evlrs=fio.rand_vlrs(ck.rng, True, 1))
+        parts = rand_partition(ck.rng, n)
+        at = ck.rng.randrange(0, len(parts))
+        inp = {"kind": "empty_evlrs_between_chunks", "minor": minor, "fmt": fmt, "n": n, "parts": list(parts), "before_chunk": at}
+        ck.case(("emptyev", minor, fmt, n, tuple(parts), at, las.points.array.tobytes()), nontrivial=True)
+        ck.count("empty_evlrs_between_chunks")
+        one = io.BytesIO()
+        las.write(one)
+        try:
+            got = chunked_write_with_empty_evlrs(las, parts, at)
+        except Exception as e:
+            ck.fail(f"write_evlrs(<empty list>) before chunk {at} of {parts}: the session raised {type(e).__name__}: {e}", inp)
+            continue
+        if got != one.getvalue():
+            ck.fail(f"write_evlrs(<empty list>) before chunk {at} of {parts}: the file differs from the one-shot file", inp)
+    # ---- the same point sequence with its second half handed over in a neighbouring tile's offsets (differing by one unit in 5e5):
+    # the file is the one-shot file of the sequence
+    for _ in range(15 if q else 300):
+        minor, fmt = ck.rng.choice(fio.PAIRS)
+        n = ck.rng.choice([4, 6])
+        sc, of = [0.5, 0.25, 1.0], [500000.0, 4500000.0, 0.0]
+        las = fio.make_las(ck.rng, minor, fmt, n, scales=sc, offsets=of)
+        for d in "XYZ":
+            las.points.array[d] = np.array([ck.rng.randrange(-10**5, 10**5) for _ in range(n)], dtype="i4")
+        of2 = [of[0] + ck.rng.choice([1.0, 2.0, 0.5]), of[1] + ck.rng.choice([2.0, 0.25]), of[2]]
+        half = n // 2
+        second = laspy.ScaleAwarePointRecord(las.points.array[half:].copy(), las.header.point_format, np.array(sc), np.array(of))
+        second.change_scaling(offsets=np.array(of2))          # the same coordinates, expressed in the other tile's offsets (exact: dyadic)
+        inp = {"kind": "chunk_in_neighbouring_offsets", "minor": minor, "fmt": fmt, "n": n, "offsets": of, "chunk_offsets": of2}
+        ck.case(("neighbour", minor, fmt, n, tuple(of2), las.points.array.tobytes()), nontrivial=True)
+        ck.count("chunk_in_neighbouring_offsets")
+        one = io.BytesIO()
+        las.write(one)
+        buf = io.BytesIO()
+        try:
+            with LasWriter(buf, las.header, closefd=False) as w:
+                w.write_points(las.points[:half])
+                w.write_points(second)
+        except Exception as e:
+            ck.fail(f"chunk handed over in offsets {of2}: {type(e).__name__}: {e}", inp)
+            continue
+        if buf.getvalue() != one.getvalue():
+            a_, b_ = buf.getvalue(), one.getvalue()
+            k0 = next((i for i in range(min(len(a_), len(b_))) if a_[i] != b_[i]), -1)
+            ck.fail(f"second chunk handed over in offsets {of2} (file offsets {of}): the file differs from the one-shot file of the same points "
+                    f"(first difference at byte {k0})", inp)
     # ---- compressed: chunked and one-shot sessions give an equal LasData, equal to the data written (backend double)
     compressed_layer(ck, 30 if q else 600)
     # ---- late writes and wrong formats
